@@ -473,9 +473,18 @@ class FieldCompiler(MessageCompiler):
         return set()
 
     @property
+    def wrapped_py_type(self) -> Optional[str]:
+        """The scalar type a wrapper field (e.g. Int32Value) is unwrapped to."""
+        if self.field_wraps:
+            return type(WRAPPER_TYPES[self.proto_obj.type_name]().value).__name__
+        return None
+
+    @property
     def use_builtins(self) -> bool:
-        return self.py_type in self.parent.builtins_types or (
-            self.py_type == self.py_name and self.py_name in dir(builtins)
+        return (
+            self.py_type in self.parent.builtins_types
+            or self.wrapped_py_type in self.parent.builtins_types
+            or (self.py_type == self.py_name and self.py_name in dir(builtins))
         )
 
     def add_imports_to(self, output_file: OutputTemplate) -> None:
@@ -560,7 +569,9 @@ class FieldCompiler(MessageCompiler):
     @property
     def annotation(self) -> str:
         py_type = self.py_type
-        if self.use_builtins:
+        if self.wrapped_py_type in self.parent.builtins_types:
+            py_type = self.typing_compiler.optional(f"builtins.{self.wrapped_py_type}")
+        elif self.use_builtins:
             py_type = f"builtins.{py_type}"
         if self.repeated:
             return self.typing_compiler.list(py_type)
